@@ -5,6 +5,7 @@ set -e
 cd "$(dirname "$0")"
 EX=/repo/examples/security_configuration_files
 cp $EX/permissions_ca.cert.pem $EX/governance.p7s $EX/permissions.p7s .
+cp $EX/cert.pem identity_cert.pem
 cp $EX/governance_unsigned.xml shipped_governance_unsigned.xml
 cp $EX/permissions_unsigned.xml shipped_permissions_unsigned.xml
 sign() { # in out [extra flags]
